@@ -159,6 +159,11 @@ theorem bind_pure_id {α} (x : M α) (s : St) : Go.bind x (fun a => Go.pure a) s
   unfold Go.bind
   cases hx : x s with
   | mk r s' => cases r <;> rfl
+/-- function-level form, usable by `simp` under binders (deliberately not a `rfl` lemma, so that the
+kernel is never asked to compare the two sides of a whole function body by unfolding) -/
+theorem bind_pure_fun {α β} (a : α) (f : α → M β) : Go.bind (Go.pure a) f = f a := by
+  funext s
+  rfl
 theorem pure_apply {α} (a : α) (s : St) : Go.pure a s = (.ok a, s) := rfl
 theorem fail_apply {α} (e : Err) (s : St) : (Go.fail e : M α) s = (.err e, s) := rfl
 theorem panic_apply {α} (p : Panic) (s : St) : (Go.panic p : M α) s = (.panic p, s) := rfl
